@@ -576,6 +576,55 @@ impl Property for C08Prop {
                 }
             }
         }
+        // route 1c: the operation as a statement whose value is discarded: it is still performed (a failing
+        // one fails), and two of the same operator in a row group left to right
+        if args.len() == 2 {
+            let (ty, la, lb) = match (&args[0], &args[1]) {
+                (Variable::Int(a), Variable::Int(b)) => ("int", lit_int(*a), lit_int(*b)),
+                (Variable::Float(a), Variable::Float(b)) => ("float", lit_float(*a), lit_float(*b)),
+                (Variable::Bool(a), Variable::Bool(b)) => ("bool", a.to_string(), b.to_string()),
+                _ => unreachable!(),
+            };
+            let after = match &expected {
+                Exp::Err(k) => Exp::Err(k),
+                _ => Exp::Int(7),
+            };
+            stats.label("operation as a discarded statement");
+            for text in [
+                format!("r := {{ {la} {op} {lb}; 7 }}; r"),
+                format!("f := () -> int {{ {la} {op} {lb}; return 7; }}; f()"),
+                format!("f := (a: {ty}, b: {ty}) -> int {{ a {op} b; return 7; }}; f({la}, {lb})"),
+                format!("f := (a: {ty}) -> int {{ if true {{ a {op} {lb}; }}; return 7; }}; f({la})"),
+            ] {
+                stats.eval();
+                let o = run::run_text(&text, false);
+                if !outcome_matches(&o, &after, true) {
+                    return fail(format!("C08:{kind}:{op}:discarded"), format!("`{text}`: expected {}, got {}", after.show(), o.short()));
+                }
+            }
+            // `a op b op b` is `(a op b) op b`
+            let twice = match (&expected, &args[1]) {
+                (Exp::Int(x), Variable::Int(b)) if !is_cmp(op) => Some(oracle_int(op, *x, *b)),
+                (Exp::Float(x), Variable::Float(b)) if !is_cmp(op) => Some(oracle_float(op, f64::from_bits(*x), *b)),
+                (Exp::Bool(x), Variable::Bool(b)) if kind == "bool" => Some(oracle_bool(op, *x, *b)),
+                (Exp::Err(k), _) if !is_cmp(op) => Some(Exp::Err(k)),
+                _ => None,
+            };
+            if let Some(want) = twice {
+                let ret = if kind == "bool" { "bool" } else { ty };
+                for text in [
+                    format!("{la} {op} {lb} {op} {lb}"),
+                    format!("f := (a: {ty}, b: {ty}) -> {ret} {{ return a {op} b {op} b; }}; f({la}, {lb})"),
+                    format!("f := (a: {ty}) -> {ret} {{ return a {op} {lb} {op} {lb}; }}; f({la})"),
+                ] {
+                    stats.eval();
+                    let o = run::run_text(&text, false);
+                    if !outcome_matches(&o, &want, true) {
+                        return fail(format!("C08:{kind}:{op}:twice"), format!("`{text}`: expected {}, got {}", want.show(), o.short()));
+                    }
+                }
+            }
+        }
         // routes 3d: both operands are one and the same variable (rewriting `x == x` to true, `x - x`
         // to 0 or `x / x` to 1 is wrong for NaN, infinities and zero)
         if args.len() == 2 {
